@@ -331,12 +331,14 @@ class Check:
         for key, h in sorted(self.known_hits.items()):
             print("KNOWN-FINDING: property=%s %s [key=%s, %d event(s) this run]" % (self.pid, h["text"], key,
                                                                                    h["count"]))
-        seen = set()
+        seen = {}
         for clause, key, path in self.violations:
-            if (clause, key) in seen and len(seen) > 20:
-                continue
-            seen.add((clause, key))
-            print("VIOLATION property=%s replay=%s clause=%s" % (self.pid, path, clause))
+            seen[clause] = seen.get(clause, 0) + 1
+            if seen[clause] <= 3:
+                print("VIOLATION property=%s replay=%s clause=%s" % (self.pid, path, clause))
+        for clause, n in seen.items():
+            if n > 3:
+                print("  (clause %s: %d rejected events in total, first 3 listed)" % (clause, n))
         cov = {
             "states": self.states,
             "transitions": self.transitions,
